@@ -566,7 +566,8 @@ def translate(repo_root):
     body += "\n(* (a) the same over atoms *)\n" + "\n".join(abs_defs) + "\n"
     for coqname, _, abst in bodies:
         body += "Definition %s_atoms : rex N :=\n  %s.\n" % (coqname, abst)
-    head = "(* GENERATED by lib/regex_turtle2coq.py from %s -- do not edit.\n   sha256 of the five regex sources: %s *)\n" % (path, sha)
+    # (the header names the file relative to the repository root, so that the output only depends on the sources)
+    head = "(* GENERATED by lib/regex_turtle2coq.py from %s -- do not edit.\n   sha256 of the five regex sources: %s *)\n" % (SRC_FILE, sha)
     text = head + PRELUDE + types + body
     info = {"turtle_regex_source_sha256": sha[:16], "turtle_regex_classes": len(em.order), "turtle_regex_atoms": len(ATOMS),
             "RegexTurtle.v.sha256": hashlib.sha256(text.encode()).hexdigest()[:16]}
